@@ -13,6 +13,7 @@ package c18
 
 import (
 	"fmt"
+	"runtime"
 	"strings"
 
 	"pgregory.net/rapid"
@@ -37,6 +38,10 @@ type ReplayCase struct {
 	Base    []Var    `json:"base"`     // documented, distinct names
 	Attacks []Attack `json:"attacks"`  // applied in order
 	SameEnv bool     `json:"same_env"` // second build on the same Environments object (values overwritten) instead of a fresh one
+	// GC: two garbage collections run between the two builds (whatever the builders keep in
+	// pools or caches between calls is dropped and re-created: a re-created generator that starts
+	// over repeats the fences of script 1).
+	GC bool `json:"gc,omitempty"`
 }
 
 // token is one fence text recognised in script 1.
@@ -213,7 +218,7 @@ var replayPayloads = []string{
 
 // GenReplay draws a delimiter-replay case.
 func GenReplay(rt *rapid.T) ReplayCase {
-	c := ReplayCase{Builder: Builders[hx.Uniform(rt, 2, "builder")], SameEnv: hx.Chance(rt, 50, "sameenv")}
+	c := ReplayCase{Builder: Builders[hx.Uniform(rt, 2, "builder")], SameEnv: hx.Chance(rt, 50, "sameenv"), GC: hx.Chance(rt, 30, "gc")}
 	nb := 1 + hx.Uniform(rt, 4, "nbase")
 	used := map[string]bool{}
 	for i := 0; i < nb; i++ {
@@ -305,6 +310,11 @@ func execReplay(c ReplayCase) hx.Verdict {
 		r.lab["replay-no-token"] = true
 	} else {
 		r.lab["replay-fence-token-extracted"] = true
+	}
+	if c.GC {
+		runtime.GC()
+		runtime.GC()
+		r.lab["replay-gc-between-builds"] = true
 	}
 	// step 3: values carrying those fences + payload
 	values := map[string]string{}
